@@ -23,6 +23,9 @@ type Case struct {
 	A        []string `json:"a"` // feature names of the current database
 	B        []string `json:"b"` // feature names of the desired schema
 	Spelling int      `json:"spelling"`
+	// Exported: the desired HCL is what atlas itself exports for B (inspect B created by our DDL,
+	// MarshalHCL) - the "inspect, edit, apply" workflow - instead of the HCL of our own writer.
+	Exported bool `json:"exported,omitempty"`
 }
 
 func stateOf(names []string) squ.State {
@@ -106,6 +109,19 @@ func Eval(ctx context.Context, c Case) (res Result) {
 		return
 	}
 	hcl := B.HCL()
+	if c.Exported {
+		br, err := ref.Atlas.InspectRealm(ctx, nil)
+		if err != nil {
+			bad("inspect B: %v", err)
+			return
+		}
+		b, err := sqlite.MarshalHCL.MarshalSpec(br)
+		if err != nil {
+			bad("export of B: %v", err)
+			return
+		}
+		hcl = string(b)
+	}
 	desired := &schema.Realm{}
 	if err := sqlite.EvalHCLBytes([]byte(hcl), desired, nil); err != nil {
 		bad("harness: desired HCL rejected: %v\n%s", err, hcl)
@@ -242,8 +258,9 @@ func pairs(tier string) []Case {
 	for _, a := range u1 {
 		for _, b := range u1 {
 			for sp := 0; sp < 2; sp++ {
-				cs = append(cs, Case{a.Names(), b.Names(), sp})
+				cs = append(cs, Case{a.Names(), b.Names(), sp, false})
 			}
+			cs = append(cs, Case{a.Names(), b.Names(), 0, true})
 		}
 	}
 	u2 := squ.Universe(2)
@@ -253,7 +270,7 @@ func pairs(tier string) []Case {
 				if len(a) <= 1 && len(b) <= 1 {
 					continue
 				}
-				cs = append(cs, Case{a.Names(), b.Names(), (len(a) + len(b)) % 2})
+				cs = append(cs, Case{a.Names(), b.Names(), (len(a) + len(b)) % 2, (len(a)+len(b))%3 == 1})
 			}
 		}
 		return cs
@@ -265,17 +282,17 @@ func pairs(tier string) []Case {
 		}
 		for i := 0; i < 2; i++ {
 			sub := squ.State{s[i]}
-			cs = append(cs, Case{s.Names(), sub.Names(), 0}, Case{sub.Names(), s.Names(), 1})
+			cs = append(cs, Case{s.Names(), sub.Names(), 0, false}, Case{sub.Names(), s.Names(), 1, true})
 		}
 		// and against the bare skeleton: plans that change two things at once.
-		cs = append(cs, Case{nil, s.Names(), 0}, Case{s.Names(), nil, 1})
+		cs = append(cs, Case{nil, s.Names(), 0, true}, Case{s.Names(), nil, 1, false})
 	}
 	return cs
 }
 
 func Run(r *report.Run) {
 	ctx := context.Background()
-	r.Rule = "current database A created on a real in-memory SQLite engine by our own DDL writer (two spellings: table-level constraints / inline column constraints), desired schema B given as HCL from our own writer; flow of `schema apply`: InspectRealm -> RealmDiff(DiffNormalized) -> ApplyChanges in a transaction -> re-inspect -> re-diff. quick: all ordered pairs of states with <=1 feature (x2 spellings) plus every 2-feature state against each of its 1-feature sub-states in both directions and against the bare skeleton; thorough: all ordered pairs of states with <=2 features. Features: " + fmt.Sprint(len(squ.Features)) + " elementary features over a 3-table skeleton. CLI slice: the real `atlas schema apply --auto-approve` on a database file (desired state as HCL file and as a live database), then `atlas schema diff` must print 'Schemas are synced', a second apply must be a no-op and the catalogue must equal B's (quick: every 1-feature state against the skeleton and its catalogue neighbour, both directions; thorough: all ordered pairs of <=1-feature states); non-trivial = pair with a non-empty plan; distinct = (A, B, spelling)"
+	r.Rule = "current database A created on a real in-memory SQLite engine by our own DDL writer (two spellings: table-level constraints / inline column constraints), desired schema B given as HCL from our own writer or as the HCL atlas itself exports for B (inspect + MarshalHCL: the inspect-edit-apply workflow); flow of `schema apply`: InspectRealm -> RealmDiff(DiffNormalized) -> ApplyChanges in a transaction -> re-inspect -> re-diff. quick: all ordered pairs of states with <=1 feature (x2 spellings) plus every 2-feature state against each of its 1-feature sub-states in both directions and against the bare skeleton; thorough: all ordered pairs of states with <=2 features. Features: " + fmt.Sprint(len(squ.Features)) + " elementary features over a 3-table skeleton. CLI slice: the real `atlas schema apply --auto-approve` on a database file (desired state as HCL file and as a live database), then `atlas schema diff` must print 'Schemas are synced', a second apply must be a no-op and the catalogue must equal B's (quick: every 1-feature state against the skeleton and its catalogue neighbour, both directions; thorough: all ordered pairs of <=1-feature states); non-trivial = pair with a non-empty plan; distinct = (A, B, spelling)"
 	r.Assumptions = []string{
 		"engine-invalid combinations (rejected by SQLite when created by our own DDL) are skipped and counted",
 		"independent oracle: the engine catalogue (pragma table_xinfo/index_list/index_xinfo/foreign_key_list + CHECK/generated texts) after A->B equals that of B created directly by our DDL; auto-index names and the origin of unique indexes (constraint vs CREATE INDEX) are normalised because atlas manages both as unique indexes",
@@ -285,7 +302,7 @@ func Run(r *report.Run) {
 	skipped, rebuild, alter, two := 0, 0, 0, 0
 	err := enum.ProcMap(len(cs), func(i int) Result { return Eval(ctx, cs[i]) }, func(i int, res Result) {
 		c := cs[i]
-		key := fmt.Sprintf("%v|%v|%d", c.A, c.B, c.Spelling)
+		key := fmt.Sprintf("%v|%v|%d|%v", c.A, c.B, c.Spelling, c.Exported)
 		r.Case(key, res.NonEmpty)
 		mu.Lock()
 		if res.Skipped != "" {
